@@ -1,5 +1,6 @@
 #!/usr/bin/env python3
-import sys, json
+import sys, json, os
+os.environ['VERIF_KEEP_GEN'] = '1'
 sys.path.insert(0, __import__('os').path.dirname(__import__('os').path.abspath(__file__)))
 from vf.unitrun import run_unit
 unit=sys.argv[1]
